@@ -1122,6 +1122,7 @@ void gen_c08(Gen &g) {
   Task t;
   Op cr = mk_create(g, 0, -1);
   cr.twin = true;
+  cr.on = r.chance(1, 6);  // a caller that still uses asm_get_buffer() for everything, executing the code included
   t.ops.push_back(cr);
   int o = r.chance(1, 2) ? opt_index(2, 1, 1) : (int)r.below(12);
   if (o != opt_index(2, 1, 1)) emit_opts(g, t, 0, o / 4, (o / 2) & 1, o & 1);
@@ -1567,6 +1568,19 @@ void gen_c17(Gen &g) {
     Op b = g.mk(OP_BIN_FILE, 1);
     b.path = "/sim/small.bin";
     tail.push_back(b);
+  }
+  if (r.chance(1, 8)) {
+    // binary output of more than a megabyte: a caller buffer of that size with the offset moved to its end (what lies
+    // below was never assembled - the file has to hold exactly those bytes all the same)
+    long big = (1L << 20) + r.range(1, 300000);
+    tail.push_back(mk_create(g, 2, big + 64));
+    Op so = g.mk(OP_OFFSET, 2);
+    so.k = big;
+    tail.push_back(so);
+    Op b = g.mk(OP_BIN_FILE, 2);
+    b.path = "/sim/large.bin";
+    tail.push_back(b);
+    tail.push_back(g.mk(OP_DESTROY, 2));
   }
   for (Op &x : tail) t.ops.push_back(x);
   // keep working after everything: more assembly at the end of the first buffer
